@@ -300,8 +300,10 @@ def vector_cases(draw):
     n = draw(st.one_of(st.integers(0, 40), st.integers(0, 600)))
     period = draw(st.sampled_from([1, 5, 7.5, 15, 60]))
     tz = draw(st.sampled_from([None, None, "pytz:America/Los_Angeles", "zoneinfo:America/Los_Angeles", "utc:", "pytz:Europe/Berlin"]))
-    if draw(st.integers(0, 3)) == 0 and n >= 2:
-        # entry k falls exactly on a rate breakpoint although the start is off the hour
+    if draw(st.integers(0, 2)) == 0 and n >= 2:
+        # entry k falls exactly on a rate breakpoint although the start is off the hour (periods whose
+        # length in hours is no binary fraction: 1, 5 and 7.5 minutes; 7 and 10 as well)
+        period = draw(st.sampled_from([1, 5, 5, 7.5, 7, 10, 15]))
         k = draw(st.integers(1, n - 1))
         bp = draw(st.sampled_from([8.0, 8.5, 12.0, 14.0, 16.0, 18.0, 21.0, 21.5, 23.0]))
         s0 = _dt(start)
